@@ -367,8 +367,8 @@ def compare_one(ctx, hist, cands, workdir):
 
 def correspond(ctx):
     drv = ctx.driver()
-    n_rand = ctx.size(260, 4000)
-    n_base = ctx.size(8, 150)
+    n_rand = ctx.size(400, 5000)
+    n_base = ctx.size(30, 300)
     hists = [gen_history(ctx) for _ in range(n_rand)]
     for _ in range(n_base):
         b = gen_history(ctx, crashes=False, maxlen=ctx.rng.choice([4, 8, 12]))
@@ -478,7 +478,7 @@ def check_history(hist, workdir):
 
 
 def oracle(ctx):
-    n = ctx.size(130, 2500)
+    n = ctx.size(300, 4000)
     root = tempfile.mkdtemp(prefix="pv-c15o-")
     try:
         for j in range(n):
